@@ -275,7 +275,7 @@ def spelling_tables(R):
     for n, d in R["units"].items():
         for s in [n] + ([d["symbol"]] if d["symbol"] else []) + d["aliases"]:
             usp[s] = n
-        if d["mods"].get("offset") is not None and "logbase" not in d["mods"]:
+        if d["mods"].get("offset") and "logbase" not in d["mods"]:      # a zero offset is a plain scale
             dn = "delta_" + n
             usp[dn] = dn
             if d["symbol"]:
@@ -292,7 +292,7 @@ def spelling_tables(R):
             if s not in psp:
                 porder.append(s)
             psp[s] = n
-    nonmult = [n for n, d in R["units"].items() if d["mods"].get("offset") is not None or "logbase" in d["mods"]]
+    nonmult = [n for n, d in R["units"].items() if d["mods"].get("offset") or "logbase" in d["mods"]]
     return usp, psp, porder, nonmult
 
 
@@ -310,11 +310,12 @@ def tla_table(R):
             ref.append([esc(k), [e.numerator, e.denominator]])
             if not k.startswith("["):
                 refspell.add(k)
+        off = fp(d["mods"]["offset"]) if isinstance(d["mods"].get("offset"), F) else None
         units[esc(n)] = {"base": bool(d["base"]), "ok": ok, "s": s, "ref": ref,
-                         "nonmult": n in nonmult}
+                         "nonmult": n in nonmult, "off": off or [0, 0], "isoffset": bool(d["mods"].get("offset")) and "logbase" not in d["mods"], "isdelta": False}
     for n, d in R["units"].items():     # automatic delta units: scale-only copies of offset units
-        if d["mods"].get("offset") is not None and "logbase" not in d["mods"]:
-            units[esc("delta_" + n)] = dict(units[esc(n)], nonmult=False)
+        if d["mods"].get("offset") and "logbase" not in d["mods"]:      # a zero offset is a plain scale
+            units[esc("delta_" + n)] = dict(units[esc(n)], nonmult=False, off=[0, 0], isoffset=False, isdelta=True)
     ddims = {esc(k): [[esc(x), [e.numerator, e.denominator]] for x, e in v.items()] for k, v in R["dims"].items()}
     pval = {"_empty": [1, 1]}
     pexact = {"_empty": [1, 1]}
